@@ -326,6 +326,10 @@ class C05Refusals(Harness):
     def instances(self, tier):
         for op in ("diff_edges", "diff_count", "diff_ndim", "scalar", "list", "array", "none", "iadd_array", "radd_array"):
             yield f"refuse-{op}", dict(op=op, M=2)
+        # 2D operands whose bins differ along exactly one axis
+        for ax in (0, 1):
+            for way in ("add", "iadd", "sub"):
+                yield f"refuse-nd-axis{ax}-{way}", dict(op="diff_nd", M=2, axis=ax, way=way)
 
     def declare(self, cx, p):
         M = p["M"]
@@ -339,8 +343,28 @@ class C05Refusals(Harness):
 
     def drive(self, E, p, x):
         np = E.np
-        a = _mk(E, x["e"], x["a"], "int")
         op = p["op"]
+        if op == "diff_nd":
+            H2 = E.mod("physt.histogram_nd").Histogram2D
+            e1, e2 = np.asarray(x["e"]), np.asarray(x["e2"])
+            fa = np.asarray([[x["a"]["f"][0], x["a"]["f"][1]], [x["a"]["f"][1], x["a"]["f"][0]]], dtype=int)
+            fb = np.asarray([[x["b"]["f"][0], x["b"]["f"][1]], [x["b"]["f"][1], x["b"]["f"][0]]], dtype=int)
+            big = H2([e1, e1], fa + fb)     # contents >= the other's, so that subtraction could not be refused for going negative
+            other = H2([e2, e1] if p["axis"] == 0 else [e1, e2], fb)
+
+            def run2():
+                if p["way"] == "add":
+                    return big + other
+                if p["way"] == "sub":
+                    return big - other
+                g = big
+                g += other
+                return g
+
+            r = E.attempt(run2)
+            return {"res": {"raised": r} if isinstance(r, Raised) else {"type": type(r).__name__}, "nd_after": snapnd(E, big), "nd_expected": (fa + fb).tolist(),
+                    "nd_other_after": snapnd(E, other)["freq"], "nd_other_expected": fb.tolist()}
+        a = _mk(E, x["e"], x["a"], "int")
         if op == "diff_edges":
             other = _mk(E, x["e2"], x["b"], "int")
         elif op == "diff_count":
@@ -377,6 +401,11 @@ class C05Refusals(Harness):
         r = obs["res"]
         expected = "ValueError" if p["op"].startswith("diff") else "TypeError"
         yield "refused", "raised" in r and r["raised"].name == expected
+        if p["op"] == "diff_nd":
+            flat = lambda a: [c for row in a for c in row]  # noqa: E731
+            yield "operand_unchanged", z3.And([cx.eq(u, cx.t(v)) for u, v in zip(flat(obs["nd_after"]["freq"]), flat(obs["nd_expected"]))]
+                                              + [cx.eq(u, cx.t(v)) for u, v in zip(flat(obs["nd_other_after"]), flat(obs["nd_other_expected"]))])
+            return
         a = obs["after"]
         M = p["M"]
         yield "operand_unchanged", z3.And([cx.eq(a["freq"][j], cx.t(x["a"]["f"][j])) for j in range(M)] + [cx.eq(a["err2"][j], cx.t(x["a"]["q"][j])) for j in range(M)]
